@@ -3,8 +3,10 @@ import AcraModel.Proxy.PlacementLemmas
 import AcraModel.Proxy.MySQLLemmas
 import AcraModel.Envelope.SafeCompatSame
 import AcraModel.Envelope.ExampleOps
+import AcraModel.Proxy.LitCoderLemmas
 import AcraModel.Generated.Wiring
 import AcraModel.Generated.StmtForms
+import AcraModel.Generated.PgCoder
 /-!
 # C04 — the SQL proxy stores only protected forms and restores originals on read
 
@@ -66,6 +68,54 @@ theorem fact_update_values_walk :
     StmtForms.pgUpdateValuesWalks = ["update.TargetList"] ∧ StmtForms.mysqlUpdateValuesWalks = ["update.Exprs"] ∧
     StmtForms.pgUpdateValuesCalls = ["updatePlaceholderMap", "encryptValuesWithPlaceholders"] ∧
     StmtForms.mysqlUpdateValuesCalls = ["updatePlaceholderMap", "encryptValuesWithPlaceholders"] := by decide
+
+/-- **Which slice travels next to the error.** Every return of `utils.DecodeEscaped`: next to BOTH errors (invalid
+hex after `\x`, `ErrDecodeOctalString`) the function hands back its INPUT (`data`), never `nil` – the PostgreSQL
+literal coder uses the slice returned next to `ErrDecodeOctalString` as the value to encrypt ("not an escaped
+bytea: take the string as it is"). The model's `decodeEscapedGo` reads the returned variable from this table. -/
+theorem fact_decodeEscaped_returns : PgCoder.decodeEscapedReturns = escReturnsExpected := by decide
+
+/-- The string-literal branch of `PgQueryDBDataCoder.Decode`, statement by statement, as `LitCoder.pgDecodeSval`
+has it: a setting with a data type other than bytea returns the literal's text; otherwise `DecodeEscaped`, an
+error other than `ErrDecodeOctalString` is returned when it is a hex error, and – with no error or with
+`ErrDecodeOctalString` – the slice `DecodeEscaped` returned (`binValue`) is the result. -/
+theorem fact_pg_decode_sval :
+    PgCoder.pgDecodeSval =
+      ["assign typeID:=setting.GetDBDataTypeID()", "if typeID!=0&&typeID!=pgtype.ByteaOID", "return []byte(sval.GetSval()),nil", "end",
+       "assign binValue,err:=utils.DecodeEscaped([]byte(sval.GetSval()))", "if err!=nil&&err!=utils.ErrDecodeOctalString",
+       "if assign _,ok:=err.(hex.InvalidByteError); err==hex.ErrLength||ok", "return nil,err",
+       "else if err==utils.ErrDecodeOctalString", "return nil,err", "end", "return []byte(sval.GetSval()),nil", "end",
+       "return binValue,nil"] := by decide
+
+/-- `UpdateExpressionValue` of both front ends, as `encCell` / `encCellMy` have it: decode (an error other than
+`ErrDecodeOctalString` / unsupported expression is passed on – the rewrite of the statement is abandoned), run the
+chain on the decoded value (an error is passed on), leave the literal alone when the chain returned the same
+bytes, otherwise encode and replace. -/
+theorem fact_update_expression_value :
+    PgCoder.pgUpdateExpressionValue =
+      ["if expr.GetSval()!=nil||expr.GetVal()!=nil||expr.GetFval()!=nil", "assign rawData,err:=coder.Decode(expr,setting)",
+       "if err!=nil", "if err==utils.ErrDecodeOctalString||err==base.ErrUnsupportedExpression", "return ErrUpdateLeaveDataUnchanged", "end",
+       "return err", "end", "assign newData,err:=updateFunc(ctx,rawData)", "if err!=nil", "return err", "end",
+       "if len(newData)==len(rawData)&&bytes.Equal(newData,rawData)", "return ErrUpdateLeaveDataUnchanged", "end",
+       "if assign err=coder.Encode(expr,newData,setting); err!=nil", "return err", "end", "end", "return nil"] ∧
+    PgCoder.myUpdateLiteralKinds = "sqlparser.StrVal,sqlparser.HexVal,sqlparser.PgEscapeString,sqlparser.IntVal,sqlparser.HexNum" ∧
+    PgCoder.myUpdateLiteralCase =
+      ["assign rawData,err:=coder.Decode(val,setting)", "if err!=nil",
+       "if err==utils.ErrDecodeOctalString||err==base.ErrUnsupportedExpression", "return ErrUpdateLeaveDataUnchanged", "end", "return err", "end",
+       "assign newData,err:=updateFunc(ctx,rawData)", "if err!=nil", "return err", "end",
+       "if len(newData)==len(rawData)&&bytes.Equal(newData,rawData)", "return ErrUpdateLeaveDataUnchanged", "end",
+       "assign coded,err:=coder.Encode(expr,newData,setting)", "if err!=nil", "return err", "end", "assign val.Val=coded"] := by decide
+
+/-- `mysql.DBDataCoder.Decode`, as `LitCoder.myDecode` has it: integer and string literals are returned as they
+are, `X'…'` is hex-decoded (an error is returned for bad hex), `0x…` likewise after its prefix. -/
+theorem fact_my_decode :
+    PgCoder.myDecode =
+      ["typeswitch assign val:=expr.(type)", "case *sqlparser.SQLVal", "switch val.Type", "case sqlparser.IntVal,sqlparser.StrVal",
+       "return val.Val,nil", "case sqlparser.HexVal", "assign binValue:=make([]byte,hex.DecodedLen(len(val.Val)))",
+       "assign _,err:=hex.Decode(binValue,val.Val)", "if err!=nil", "return nil,err", "end", "return binValue,nil",
+       "case sqlparser.HexNum", "if !bytes.HasPrefix(val.Val,hexNumPrefix)", "return val.Val,nil", "end",
+       "assign binValue:=make([]byte,hex.DecodedLen(len(val.Val)-2))", "assign _,err:=hex.Decode(binValue,val.Val[2:])",
+       "if err!=nil", "return nil,err", "end", "return binValue,nil", "end", "end", "return nil,base.ErrUnsupportedExpression"] := by decide
 
 /-! ## placement: which cells change (for every cell transformer) -/
 
@@ -200,12 +250,36 @@ theorem uncovered_identity_bind (c : CryptoOps) (kv : KeyView) (sch : Schema) (s
 
 /-! ## pipeline: what happens to a value -/
 
-/-- **write_never_plain (literal).** A string literal written into a protected column – whose decoded value
+/-- **What the chain receives for a literal – for EVERY literal text.** `PgQueryDBDataCoder.Decode` of a string
+literal `lit` of a protected column returns an error exactly when the column has no text data type and `lit` is
+`\x` followed by invalid hex; in every other case it hands the chain a value `raw` that is either the literal's
+text itself or its bytea decoding, and `raw` is empty only when the literal denotes the empty byte string (`''`,
+or `'\x'`). In particular a text that is not valid bytea escape text – a line break, a tab, a control
+character, a backslash not followed by a backslash or three octal digits, `C:\keys\master.pem` – reaches the
+chain as it is, never as an empty value that the chain would skip. -/
+theorem lit_value_total (s : ColSetting) (lit : Bytes) :
+    (decodeLit s lit = none ↔ s.textTyped = false ∧ ∃ h, lit = 92 :: 120 :: h ∧ Wire.Bytea.hexDecode h = none) ∧
+    (∀ raw, decodeLit s lit = some raw →
+      (raw = lit ∨ Wire.Bytea.decodeEscaped lit = .ok raw) ∧
+      (raw = [] → lit = [] ∨ (s.textTyped = false ∧ lit = [92, 120]))) :=
+  ⟨pgDecodeSval_none_iff fact_decodeEscaped_returns s.textTyped lit,
+   fun raw h => pgDecodeSval_some fact_decodeEscaped_returns s.textTyped lit raw h⟩
+
+/-- **What the MySQL chain receives for a literal.** String and integer literals reach the chain as their text,
+`X'…'` as the decoded bytes (an error – statement forwarded as received – only for bad hex), and the value is
+empty only for an empty literal (`''`, `X''`, `0x`). -/
+theorem lit_value_total_my (k : MyLit) (v : Bytes) :
+    (k = .str ∨ k = .int → myDecode k v = some v) ∧
+    (k = .hexVal → myDecode k v = Wire.Bytea.hexDecode v) ∧
+    (∀ raw, myDecode k v = some raw → raw = [] → v = [] ∨ (k = .hexNum ∧ v = hexNumPrefix)) :=
+  myDecode_spec k v
+
+/-- **write_never_plain (literal, its decoded value).** A string literal written into a protected column – whose decoded value
 `raw` is not empty and not already protected – is replaced by the text encoding of exactly
 `protect … raw`, a value different from `raw`; the random stream advances by what the envelope consumed.
 Together with `rewrite_frame_insert` / `rewrite_frame_update`: every protected cell of the forwarded
 statement is `encodeText (protect …)` of the client's cell and every other cell is identical. -/
-theorem write_never_plain (c : CryptoOps) (kvW kvR : KeyView) (s : ColSetting) (b raw rnd p : Bytes)
+theorem write_never_plain_value (c : CryptoOps) (kvW kvR : KeyView) (s : ColSetting) (b raw rnd p : Bytes)
     (hd : decodeLit s b = some raw) (hne : raw ≠ [])
     (h : RoundTripHyps c s.kind kvW kvR raw rnd p)
     (hnm : matchKind s.kind raw = false) (hnr : registryMatch raw = false)
@@ -215,6 +289,64 @@ theorem write_never_plain (c : CryptoOps) (kvW kvR : KeyView) (s : ColSetting) (
   have hemp : raw.isEmpty = false := by cases raw <;> simp_all
   have hbeq : (p == raw) = false := by simpa using hpr
   simp [encCell, hd, hemp, hw, hbeq, chainUsed, passthrough, hnm, hnr]
+
+/-- **write_never_plain (literal) – for every literal text.** Let `b` be ANY byte string standing as a string
+literal in a protected column, other than the two shapes named by `lit_value_total`: `\x` + invalid hex in a
+column without text type (the coder returns an error: see `fail_open_*`), and a literal that denotes the empty
+byte string (nothing to protect). Then the coder hands the chain a NON-EMPTY value `raw` – the bytea decoding of
+`b`, or `b` itself when `b` is not valid escape text – and, whenever the envelope can be built for `raw`, the
+forwarded literal is the text encoding of exactly `protect … raw`, a value different from `raw`. -/
+theorem write_never_plain (c : CryptoOps) (kvW kvR : KeyView) (s : ColSetting) (b rnd : Bytes)
+    (hx : ¬ (s.textTyped = false ∧ ∃ h, b = 92 :: 120 :: h ∧ Wire.Bytea.hexDecode h = none))
+    (he : b ≠ [] ∧ ¬ (s.textTyped = false ∧ b = [92, 120])) :
+    ∃ raw, decodeLit s b = some raw ∧ raw ≠ [] ∧ (raw = b ∨ Wire.Bytea.decodeEscaped b = .ok raw) ∧
+      ∀ p, RoundTripHyps c s.kind kvW kvR raw rnd p → matchKind s.kind raw = false → registryMatch raw = false →
+        protect c kvW s.kind raw rnd = .ok p → p ≠ raw →
+        encCell c kvW s (.lit b) rnd = some (.lit (encodeText s p), rnd.drop (rndUsed s.kind)) := by
+  obtain ⟨hnone, hsome⟩ := lit_value_total s b
+  cases hd : decodeLit s b with
+  | none => exact absurd (hnone.1 hd) hx
+  | some raw =>
+    obtain ⟨hor, hemp⟩ := hsome raw hd
+    have hne : raw ≠ [] := by
+      intro h
+      cases hemp h with
+      | inl h => exact he.1 h
+      | inr h => exact he.2 h
+    exact ⟨raw, rfl, hne, hor, fun p h hnm hnr hp hpr => write_never_plain_value c kvW kvR s b raw rnd p hd hne h hnm hnr hp hpr⟩
+
+/-- **Fail-open, stated as what the code does (1): which literals make the rewrite fail.** The transformer of a
+protected literal fails (`none`) exactly when the coder returns an error (`\x` + invalid hex, no text type) or
+the encryption chain fails on the non-empty decoded value (no usable key, …). -/
+theorem fail_open_cell (c : CryptoOps) (kv : KeyView) (s : ColSetting) (b rnd : Bytes) :
+    encCell c kv s (.lit b) rnd = none ↔
+      decodeLit s b = none ∨ ∃ raw, decodeLit s b = some raw ∧ raw ≠ [] ∧ ∀ nd, writeChain c kv s raw rnd ≠ .ok nd := by
+  cases hd : decodeLit s b with
+  | none => simp [encCell, hd]
+  | some raw =>
+    by_cases hr : raw = []
+    · subst hr; simp [encCell, hd]
+    · have hemp : raw.isEmpty = false := by cases raw <;> simp_all
+      cases hw : writeChain c kv s raw rnd with
+      | ok nd =>
+        have h1 : encCell c kv s (.lit b) rnd ≠ none := by
+          simp only [encCell, hd, hemp, hw]
+          repeat' split
+          all_goals simp
+        simp [h1, hr, hw]
+      | err => simp [encCell, hd, hemp, hw, hr]
+      | panic => simp [encCell, hd, hemp, hw, hr]
+
+/-- **Fail-open, stated as what the code does (2): a failed rewrite forwards the statement as received.** When
+the transformer fails on ANY protected cell of an INSERT / UPDATE, `OnQuery` returns the error, `handleQueryPacket`
+only logs it and the statement goes to the database exactly as the client sent it – every protected literal in
+it, also those the transformer had handled before the failing one, in clear. -/
+theorem fail_open_statement {σ} (f : Xf σ) (sch : Schema) (st : σ) :
+    (∀ i, xfInsertStmt f sch i st = none → xfStmt f sch (.insert i) st = (.insert i, st)) ∧
+    (∀ u, xfUpdateStmt f sch u st = none → xfStmt f sch (.update u) st = (.update u, st)) := by
+  constructor
+  · intro i h; simp [xfStmt, h]
+  · intro u h; simp [xfStmt, h]
 
 /-- For columns that are not text-typed the forwarded literal is the hex bytea literal of the container. -/
 theorem write_never_plain_hex (s : ColSetting) (p : Bytes) (h : s.dtype ≠ .str) : encodeText s p = pgHex p := by
@@ -594,7 +726,7 @@ example :
     ⟨hs, [1,2,3], [[4,5]], [[1,2,9]], hkid, rfl, rfl, hkpre, hek, by rw [hpl']; decide⟩
   have hdl : decodeLit s [92, 120, 48, 57, 48, 57] = some [9, 9] := by decide
   refine ⟨p, ?_, hne, ?_⟩
-  · have := write_never_plain toyOps kvW kvR s _ [9,9] _ p hdl (by decide) hH hnm hnr hp hne
+  · have := write_never_plain_value toyOps kvW kvR s _ [9,9] _ p hdl (by decide) hH hnm hnr hp hne
     rw [this, write_never_plain_hex s p (by decide)]
     rfl
   · exact (read_restores toyOps kvW kvR s .text [9,9] _ p (by decide) hH hnm hnr hp (fun h => hne h.symm) (Or.inl rfl)).2
